@@ -31,6 +31,8 @@ def _tables_from(f, acc, ds):
     for r in f["rels"]:
         if r["k"] == "base":
             acc.add(fq(r["t"], ds))
+        elif r["k"] == "path":
+            acc.add(r["uri"])  # a file read in FROM is a source, named by its path
         elif r["k"] == "derived":
             _tables_query(r["q"], acc, ds)
 
@@ -79,6 +81,17 @@ def tables(st, default_schema=None):
         return set(), set()  # statements that move no data report nothing
     if k in ("insert", "ctas", "view", "bare", "select_into"):
         _tables_query(st["q"], src, ds)
+    elif k == "insert_dir":  # the directory is what the statement writes
+        _tables_query(st["q"], src, ds)
+        return src, {st["path"]}
+    elif k == "copy_from":  # the file is read, the table written
+        src.add(st["path"])
+    elif k == "copy_to":  # the table or the query is read, the file (if any: not STDOUT) written
+        if st.get("table"):
+            src.add(fq(st["table"], ds))
+        else:
+            _tables_query(st["q"], src, ds)
+        return src, ({st["path"]} if st["path"] else set())
     elif k == "update":
         if st["from"]:
             _tables_from(st["from"], src, ds)
